@@ -54,4 +54,6 @@ def for_property(prop: str):
         "dict": sx_dict,
     }
     mods["aiortc.rtcrtpreceiver"] = Profile(recv, rewrite={"join", "containers"})
+    dtls = {"set": sx_set, "dict": sx_dict, "bytes": shims.sx_bytes, "int": shims.sx_int}
+    mods["aiortc.rtcdtlstransport"] = Profile(dtls, rewrite={"join", "containers"})
     return {"modules": mods, "default": None}
